@@ -638,7 +638,18 @@ class XPathToken(Token[ta.XPathTokenType]):
                 continue
             elif isinstance(op2, UntypedAtomic) and \
                     isinstance(op1, (AbstractDateTime, Duration, AbstractBinary)):
-                yield op1, type(op1).make(op2.value, parser=self.parser)
+                op2 = type(op1).make(op2.value, parser=self.parser)
+            elif isinstance(op1, UntypedAtomic) and isinstance(op2, AbstractDateTime):
+                op1 = type(op2).make(op1.value, parser=self.parser)
+
+            if isinstance(op1, AbstractDateTime) and isinstance(op2, AbstractDateTime):
+                # a value without timezone is compared using the implicit timezone
+                yield self.with_implicit_timezone(op1, context), \
+                    self.with_implicit_timezone(op2, context)
+                continue
+            elif isinstance(op1, (Duration, AbstractBinary)) and \
+                    isinstance(op2, (Duration, AbstractBinary)):
+                yield op1, op2
                 continue
 
             # An untyped value compared with a decimal or an integer is cast to xs:double,
@@ -698,6 +709,18 @@ class XPathToken(Token[ta.XPathTokenType]):
                         raise TypeError(msg.format(type(op1), type(op2)))
 
             yield op1, op2
+
+    @staticmethod
+    def with_implicit_timezone(value: Any, context: ta.ContextType) -> Any:
+        """
+        Returns a copy of a date/time value without timezone with the implicit timezone
+        of the dynamic context, if any, otherwise returns the value itself.
+        """
+        if isinstance(value, AbstractDateTime) and value.tzinfo is None and \
+                context is not None and context.timezone is not None:
+            value = copy(value)  # don't modify the caller's value
+            value.tzinfo = context.timezone
+        return value
 
     def get_operands(self, context: ta.ContextType, cls: type[Any] | None = None) -> Any:
         """
